@@ -7,6 +7,7 @@ import (
 	"go/token"
 	"go/types"
 	"math/big"
+	"os"
 	"sort"
 	"strings"
 
@@ -249,6 +250,18 @@ func (vc *VC) findLoops(fr *Frame) {
 					seen[s] = true
 					headers = append(headers, s)
 					fr.loops[s] = &loopInfo{header: s, blocks: map[*ssa.BasicBlock]bool{s: true}}
+					// a map range loop: its header holds the Next of a Range over a map
+					if os.Getenv("GOVC_NO_RANGE_HAVOC") == "" {
+						for _, ins := range s.Instrs {
+							if nx, ok := ins.(*ssa.Next); ok && !nx.IsString {
+								if rg, ok := nx.Iter.(*ssa.Range); ok {
+									if _, isMap := rg.X.Type().Underlying().(*types.Map); isMap {
+										fr.loops[s].rangeIt = rg
+									}
+								}
+							}
+						}
+					}
 				}
 				li := fr.loops[s]
 				li.backFrom = append(li.backFrom, b)
